@@ -291,3 +291,536 @@ Section RecordModes.
     - apply fl_core_not_format.
   Qed.
 End RecordModes.
+
+(* ---------- MafReader ---------- *)
+Section ReaderModes.
+  Context {C W : Type}.
+  Variable sem : colsem C W.
+  Notation cls := (cls C).
+  Notation scheme := (scheme cls).
+  Notation mrec := (mrec C W).
+  Notation payload := (payload C W).
+  Variable registry : list scheme.
+  Context {K : Type}.
+  Variable key_of : sorder -> list str -> rec payload -> res K.
+  Variable key_lt : K -> K -> bool.
+  (* contract of the sort keys (property C08): building a key is total except
+     for the documented ValueError *)
+  Hypothesis key_total : forall o cs r, match key_of o cs r with Ok _ => True | Raise e => e = ValueError end.
+
+  Notation reader := (reader C).
+  Notation iterate := (iterate sem key_of key_lt).
+
+  (* the mode-free plan of __init__ after the header lines were parsed *)
+  Record init_plan := {
+    ip_recs : list (str * hrec); ip_herrs : list verr;
+    ip_next : option str; ip_lineno : Z; ip_pending : list str;
+    ip_scheme : option scheme; ip_errs : list verr; ip_fallback : bool
+  }.
+
+  Definition plan_of (lines : list str) (override : option scheme) : init_plan :=
+    let '(hl, nxt, n, rest) := read_header_lines lines 0 [] in
+    let '(recs, herrs) := hfl_core registry hl in
+    let col_ln := n in
+    let '(column_names, nxt', n', rest') :=
+      match nxt with
+      | Some l =>
+          match rest with
+          | [] => (Some (split TAB l), None, n, [])
+          | l2 :: rest2 => (Some (split TAB l), Some (rstrip_crlf l2), n + 1, rest2)
+          end
+      | None => (None, None, n, rest)
+      end in
+    let hs := match h_scheme registry recs with Ok hs => hs | Raise _ => None end in
+    let '(sch1, errs1) :=
+      match override with
+      | Some o =>
+          (Some o,
+           herrs ++ match hs with
+                    | Some s => if negb (str_eqb (s_version o) (s_version s))
+                                then [mkerr T_HEADER_MISMATCH_SCHEME None] else []
+                    | None => []
+                    end)
+      | None => (hs, herrs)
+      end in
+    match column_names with
+    | Some names =>
+        let fallback := match sch1 with None => true | Some s => s_norestr s end in
+        let s := match sch1 with
+                 | Some s => if s_norestr s then no_restrictions names else s
+                 | None => no_restrictions names
+                 end in
+        let expected := s_names s in
+        {| ip_recs := recs; ip_herrs := herrs; ip_next := nxt'; ip_lineno := n'; ip_pending := rest';
+           ip_scheme := Some s;
+           ip_errs := errs1 ++
+             (if negb (Nat.eqb (length names) (length expected))
+              then [mkerr T_SCHEME_MISMATCHING_NUMBER_OF_COLUMN_NAMES (Some col_ln)]
+              else name_mismatches names expected (Some col_ln));
+           ip_fallback := fallback |}
+    | None =>
+        {| ip_recs := recs; ip_herrs := herrs; ip_next := nxt'; ip_lineno := n'; ip_pending := rest';
+           ip_scheme := sch1;
+           ip_errs := errs1 ++ [mkerr T_HEADER_MISSING_COLUMN_NAMES (Some (n' + 1))];
+           ip_fallback := false |}
+    end.
+
+  Definition mk_reader (m : mode) (p : init_plan) : reader :=
+    {| rd_next := ip_next p; rd_lineno := ip_lineno p; rd_pending := ip_pending p;
+       rd_header := mk_header m (ip_recs p) (ip_herrs p);
+       rd_scheme := ip_scheme p; rd_errs := ip_errs p; rd_mode := m |}.
+
+  Lemma reader_init_unfold lines m override :
+    reader_init registry lines (Some m) override =
+    let p := plan_of lines override in
+    obind (process m LgRoot (ip_herrs p)) (fun _ =>
+      olog (if ip_fallback p && negb (mode_eqb m Silent) then [LNoScheme] else [])
+           (obind (process m LgReader (ip_errs p)) (fun _ => oret (mk_reader m p)))).
+  Proof.
+    unfold reader_init, plan_of.
+    destruct (read_header_lines lines 0 []) as [[[hl nxt] n] rest].
+    rewrite header_from_lines_unfold. unfold finish.
+    destruct (hfl_core registry hl) as [recs herrs].
+    destruct (process m LgRoot herrs) as [lg0 [[]|e]] eqn:EP.
+    2:{ destruct nxt as [l|]; [destruct rest as [|l2 rest2]|]; simpl;
+        repeat match goal with
+               | |- context [match ?x with _ => _ end] => destruct x; simpl
+               end; rewrite ?EP; reflexivity. }
+    destruct (h_scheme_ok registry recs) as [hs Ehs].
+    destruct nxt as [l|]; [destruct rest as [|l2 rest2]|]; simpl; rewrite Ehs;
+      destruct override as [o|]; simpl; rewrite ?EP; simpl;
+      repeat match goal with
+             | |- context [process m LgReader ?x] => destruct (process m LgReader x) as [? [[]|?]]; simpl
+             end; rewrite ?app_nil_r; reflexivity.
+  Qed.
+
+  Definition same_reader (a b : reader) : Prop :=
+    rd_next a = rd_next b /\ rd_lineno a = rd_lineno b /\ rd_pending a = rd_pending b /\
+    same_header (rd_header a) (rd_header b) /\ rd_scheme a = rd_scheme b /\ rd_errs a = rd_errs b.
+
+  Definition no_ignored (l : log) : Prop := forall lg e, ~ In (LIgnored lg e) l.
+
+  Lemma plan_errs_head lines override :
+    let p := plan_of lines override in
+    exists more, ip_errs p = ip_herrs p ++ more.
+  Proof.
+    unfold plan_of.
+    destruct (read_header_lines lines 0 []) as [[[hl nxt] n] rest].
+    destruct (hfl_core registry hl) as [recs herrs].
+    destruct nxt as [l|]; [destruct rest as [|l2 rest2]|]; destruct override as [o|]; simpl;
+      rewrite <- ?app_assoc; eexists; reflexivity.
+  Qed.
+
+  (* opening a reader under the three stringencies *)
+  Lemma reader_init_modes lines override :
+    let p := plan_of lines override in
+    reader_init registry lines (Some Silent) override = ([], Ok (mk_reader Silent p)) /\
+    (exists lgL, reader_init registry lines (Some Lenient) override = (lgL, Ok (mk_reader Lenient p)) /\
+                 warns_all lgL (ip_errs p)) /\
+    match ip_errs p with
+    | [] => exists lgT, reader_init registry lines (Some Strict) override = (lgT, Ok (mk_reader Strict p)) /\
+                        no_ignored lgT
+    | e0 :: _ => exists lgT, reader_init registry lines (Some Strict) override = (lgT, Raise (format_of e0)) /\
+                             no_ignored lgT
+    end.
+  Proof.
+    intros p. rewrite !reader_init_unfold. cbv zeta. fold p.
+    destruct (plan_errs_head lines override) as [more Hm]. fold p in Hm.
+    split; [|split].
+    - rewrite !process_silent. simpl. now rewrite andb_false_r.
+    - rewrite !process_lenient. simpl. eexists. split; [reflexivity|].
+      intros e He. exists LgReader. rewrite ?app_nil_r.
+      apply in_or_app. right. apply in_or_app. right. now apply in_map.
+    - rewrite Hm. destruct (ip_herrs p) as [|h0 hr] eqn:EH.
+      + simpl. simpl in Hm. rewrite <- Hm.
+        destruct (ip_errs p) as [|e0 r] eqn:EE.
+        * simpl. eexists. split; [reflexivity|].
+          intros lg e H. rewrite app_nil_r in H. destruct (ip_fallback p); simpl in H; [destruct H as [H|[]]; discriminate|tauto].
+        * simpl. eexists. split; [reflexivity|].
+          intros lg e H. rewrite app_nil_r in H. destruct (ip_fallback p); simpl in H; [destruct H as [H|[]]; discriminate|tauto].
+      + simpl. eexists. split; [reflexivity|]. intros lg e [].
+  Qed.
+
+  Lemma same_reader_mk m m' p : same_reader (mk_reader m p) (mk_reader m' p).
+  Proof. unfold same_reader, same_header; simpl; auto 10. Qed.
+
+  (* the same, without reference to the plan *)
+  Lemma reader_open_modes lines override :
+    exists rdS, reader_init registry lines (Some Silent) override = ([], Ok rdS) /\
+    (exists lgL rdL, reader_init registry lines (Some Lenient) override = (lgL, Ok rdL) /\
+                     same_reader rdS rdL /\ warns_all lgL (rd_errs rdS)) /\
+    match rd_errs rdS with
+    | [] => exists lgT rdT, reader_init registry lines (Some Strict) override = (lgT, Ok rdT) /\
+                            same_reader rdS rdT /\ no_ignored lgT
+    | e0 :: _ => exists lgT, reader_init registry lines (Some Strict) override = (lgT, Raise (format_of e0)) /\
+                             no_ignored lgT
+    end.
+  Proof.
+    destruct (reader_init_modes lines override) as (HS & (lgL & HL & HwL) & HT).
+    exists (mk_reader Silent (plan_of lines override)). split; [exact HS|]. split.
+    - exists lgL, (mk_reader Lenient (plan_of lines override)). repeat split; auto.
+    - simpl. destruct (ip_errs (plan_of lines override)).
+      + destruct HT as (lgT & HT & Hn). exists lgT, (mk_reader Strict (plan_of lines override)). repeat split; auto.
+      + exact HT.
+  Qed.
+
+  (* ---------- iteration ---------- *)
+  Definition opt_same (a b : option mrec) : Prop :=
+    match a, b with
+    | Some x, Some y => same_mrec x y
+    | None, None => True
+    | _, _ => False
+    end.
+
+  Lemma check_order_same o cs a b r r' :
+    opt_same a b -> same_mrec r r' -> check_order key_of key_lt o cs a r = check_order key_of key_lt o cs b r'.
+  Proof.
+    intros Hab [_ [Hc _]]. unfold check_order, mrec_truthy.
+    destruct a as [x|], b as [y|]; simpl in Hab; try tauto.
+    destruct Hab as [_ [Hxy _]]. now rewrite Hxy, Hc.
+  Qed.
+
+  Lemma check_order_not_format o cs a r e :
+    check_order key_of key_lt o cs a r = Raise e -> e = ValueError.
+  Proof.
+    unfold check_order. destruct a as [lr|]; [|discriminate].
+    destruct (mrec_truthy lr && sortable o); [|discriminate].
+    pose proof (key_total o cs (mcols r)) as H1. destruct (key_of o cs (mcols r)) as [k|e1].
+    - pose proof (key_total o cs (mcols lr)) as H2. destruct (key_of o cs (mcols lr)) as [kl|e2].
+      + destruct (key_lt k kl); [intros H; now injection H|discriminate].
+      + intros H; injection H as <-; assumption.
+    - intros H; injection H as <-; assumption.
+  Qed.
+
+  Definition tr_log (t : log * list mrec * ending * list verr) : log := fst (fst (fst t)).
+  Definition tr_recs (t : log * list mrec * ending * list verr) : list mrec := snd (fst (fst t)).
+  Definition tr_end (t : log * list mrec * ending * list verr) : ending := snd (fst t).
+  Definition tr_errs (t : log * list mrec * ending * list verr) : list verr := snd t.
+
+  Lemma iterate_eq cur n pending sch mode o cs last :
+    iterate cur n pending sch mode o cs last =
+    match from_line sem cur None sch (Some n) (Some mode) LgRoot with
+    | (lg, Raise e) => (lg, [], EndRaise e, [])
+    | (lg, Ok r) =>
+        match check_order key_of key_lt o cs last r with
+        | Raise e => (lg, [], EndRaise e, merrs r)
+        | Ok _ =>
+            match pending with
+            | [] => (lg, [r], EndStop, merrs r)
+            | l :: pending' =>
+                let t := iterate (rstrip_crlf l) (n + 1) pending' sch mode o cs (Some r) in
+                (lg ++ tr_log t, r :: tr_recs t, tr_end t, merrs r ++ tr_errs t)
+            end
+        end
+    end.
+  Proof.
+    destruct pending as [|l p]; simpl.
+    - reflexivity.
+    - destruct (from_line sem cur None sch (Some n) (Some mode) LgRoot) as [lg [r|e]]; [|reflexivity].
+      destruct (check_order key_of key_lt o cs last r); [|reflexivity].
+      destruct (iterate (rstrip_crlf l) (n + 1) p sch mode o cs (Some r)) as [[[x1 x2] x3] x4]. reflexivity.
+  Qed.
+
+  Definition end_not_format (e : ending) : Prop :=
+    match e with EndRaise x => forall t l, x <> MafFormat t l | EndStop => True end.
+
+  Lemma same_mrec_refl (r : mrec) : same_mrec r r.
+  Proof. repeat split. Qed.
+  Lemma opt_same_refl (a : option mrec) : opt_same a a.
+  Proof. destruct a; simpl; auto using same_mrec_refl. Qed.
+
+  Lemma warns_all_app l1 l2 e1 e2 : warns_all l1 e1 -> warns_all l2 e2 -> warns_all (l1 ++ l2) (e1 ++ e2).
+  Proof.
+    intros H1 H2 e He. apply in_app_or in He as [He|He].
+    - destruct (H1 e He) as [lg H]. exists lg. apply in_or_app; now left.
+    - destruct (H2 e He) as [lg H]. exists lg. apply in_or_app; now right.
+  Qed.
+  Lemma warns_all_map lg es : warns_all (map (LIgnored lg) es) es.
+  Proof. intros e He. exists lg. now apply in_map. Qed.
+
+  (* what C03 says about two traces of the same input *)
+  Definition lenient_trace_ok (tS tL : log * list mrec * ending * list verr) : Prop :=
+    Forall2 same_mrec (tr_recs tS) (tr_recs tL) /\ tr_end tL = tr_end tS /\ tr_errs tL = tr_errs tS /\
+    warns_all (tr_log tL) (tr_errs tS).
+  Definition strict_trace_ok (tS tT : log * list mrec * ending * list verr) : Prop :=
+    tr_log tT = [] /\ tr_errs tT = [] /\
+    match tr_errs tS with
+    | [] => Forall2 same_mrec (tr_recs tS) (tr_recs tT) /\ tr_end tT = tr_end tS
+    | e0 :: _ => Forall2 same_mrec (clean_prefix (@merrs C W) (tr_recs tS)) (tr_recs tT) /\
+                 tr_end tT = EndRaise (format_of e0)
+    end.
+
+  (* iterating under the three stringencies, from related positions *)
+  Lemma iterate_modes pending : forall cur n sch o cs lastS lastL lastT,
+    opt_same lastS lastL -> opt_same lastS lastT ->
+    tr_log (iterate cur n pending sch Silent o cs lastS) = [] /\
+    end_not_format (tr_end (iterate cur n pending sch Silent o cs lastS)) /\
+    lenient_trace_ok (iterate cur n pending sch Silent o cs lastS) (iterate cur n pending sch Lenient o cs lastL) /\
+    strict_trace_ok (iterate cur n pending sch Silent o cs lastS) (iterate cur n pending sch Strict o cs lastT).
+  Proof.
+    induction pending as [|l pending IH]; intros cur n sch o cs lastS lastL lastT HL HT;
+      rewrite !iterate_eq;
+      pose proof (from_line_modes sem cur None sch (Some n) LgRoot) as Hc;
+      unfold stringency_contract in Hc;
+      destruct (from_line sem cur None sch (Some n) (Some Silent) LgRoot) as [lgS [rS|eS]];
+      destruct (from_line sem cur None sch (Some n) (Some Lenient) LgRoot) as [lgL resL];
+      destruct (from_line sem cur None sch (Some n) (Some Strict) LgRoot) as [lgT resT];
+      simpl in Hc; destruct Hc as (HlS & HnfS & _ & Hc); subst lgS.
+    (* ---- no line pending ---- *)
+    - destruct Hc as ((rL & -> & HsL & HeL) & -> & HcT).
+      rewrite <- (check_order_same o cs lastS lastL rS rL HL HsL).
+      destruct (merrs rS) as [|e0 er] eqn:EM.
+      + destruct HcT as (-> & rT & -> & HsT & HeT).
+        rewrite <- (check_order_same o cs lastS lastT rS rT HT HsT).
+        destruct (check_order key_of key_lt o cs lastS rS) as [[]|e] eqn:EC;
+          unfold lenient_trace_ok, strict_trace_ok, tr_log, tr_recs, tr_end, tr_errs; simpl;
+          rewrite ?HeL, ?HeT, ?EM; simpl.
+        * repeat split; auto. intros e [].
+        * apply check_order_not_format in EC. subst e. repeat split; auto; try discriminate. intros e [].
+      + destruct HcT as (-> & ->).
+        destruct (check_order key_of key_lt o cs lastS rS) as [[]|e] eqn:EC;
+          unfold lenient_trace_ok, strict_trace_ok, tr_log, tr_recs, tr_end, tr_errs; simpl;
+          rewrite ?HeL, ?EM; simpl.
+        * repeat split; auto. apply (warns_all_map LgRoot (e0 :: er)).
+        * apply check_order_not_format in EC. subst e. repeat split; auto; try discriminate.
+          apply (warns_all_map LgRoot (e0 :: er)).
+    - destruct Hc as (-> & -> & -> & ->).
+      unfold lenient_trace_ok, strict_trace_ok, tr_log, tr_recs, tr_end, tr_errs; simpl.
+      split; [reflexivity|]. split; [intros t l' E; apply (HnfS t l'); now rewrite E|].
+      split; [repeat split; auto; intros e []|]. repeat split; auto.
+    (* ---- a line pending ---- *)
+    - destruct Hc as ((rL & -> & HsL & HeL) & -> & HcT).
+      rewrite <- (check_order_same o cs lastS lastL rS rL HL HsL).
+      destruct (merrs rS) as [|e0 er] eqn:EM.
+      + destruct HcT as (-> & rT & -> & HsT & HeT).
+        rewrite <- (check_order_same o cs lastS lastT rS rT HT HsT).
+        destruct (check_order key_of key_lt o cs lastS rS) as [[]|e] eqn:EC.
+        * destruct (IH (rstrip_crlf l) (n + 1) sch o cs (Some rS) (Some rL) (Some rT) HsL HsT)
+            as (I1 & I2 & (I3 & I4 & I5 & I6) & (I7 & I8 & I9)).
+          unfold lenient_trace_ok, strict_trace_ok, tr_log, tr_recs, tr_end, tr_errs in *; simpl.
+          rewrite ?HeL, ?HeT, ?EM, ?I1, ?I7, ?I8, ?I5; simpl.
+          split; [reflexivity|]. split; [exact I2|].
+          split; [split; [constructor; auto|split; [exact I4|split; [reflexivity|exact I6]]]|].
+          split; [reflexivity|]. split; [reflexivity|].
+          destruct (snd (iterate (rstrip_crlf l) (n + 1) pending sch Silent o cs (Some rS))) as [|e1 er1];
+            destruct I9 as [I9 I10]; (split; [constructor; auto|exact I10]).
+        * apply check_order_not_format in EC. subst e.
+          unfold lenient_trace_ok, strict_trace_ok, tr_log, tr_recs, tr_end, tr_errs; simpl.
+          rewrite ?HeL, ?HeT, ?EM; simpl. repeat split; auto; try discriminate. intros e [].
+      + destruct HcT as (-> & ->).
+        destruct (check_order key_of key_lt o cs lastS rS) as [[]|e] eqn:EC.
+        * destruct (IH (rstrip_crlf l) (n + 1) sch o cs (Some rS) (Some rL) (Some rS) HsL (same_mrec_refl rS))
+            as (I1 & I2 & (I3 & I4 & I5 & I6) & _).
+          unfold lenient_trace_ok, strict_trace_ok, tr_log, tr_recs, tr_end, tr_errs in *; simpl.
+          rewrite ?HeL, ?EM, ?I1, ?I5; simpl.
+          split; [reflexivity|]. split; [exact I2|].
+          split; [|repeat split; constructor].
+          split; [constructor; auto|]. split; [exact I4|]. split; [reflexivity|].
+          change (warns_all (map (LIgnored LgRoot) (e0 :: er) ++
+                             fst (fst (fst (iterate (rstrip_crlf l) (n + 1) pending sch Lenient o cs (Some rL)))))
+                            ((e0 :: er) ++ snd (iterate (rstrip_crlf l) (n + 1) pending sch Silent o cs (Some rS)))).
+          apply warns_all_app; [apply warns_all_map|exact I6].
+        * apply check_order_not_format in EC. subst e.
+          unfold lenient_trace_ok, strict_trace_ok, tr_log, tr_recs, tr_end, tr_errs; simpl.
+          rewrite ?HeL, ?EM; simpl. repeat split; auto; try discriminate.
+          apply (warns_all_map LgRoot (e0 :: er)).
+    - destruct Hc as (-> & -> & -> & ->).
+      unfold lenient_trace_ok, strict_trace_ok, tr_log, tr_recs, tr_end, tr_errs; simpl.
+      split; [reflexivity|]. split; [intros t l' E; apply (HnfS t l'); now rewrite E|].
+      split; [repeat split; auto; intros e []|]. repeat split; auto.
+  Qed.
+
+  (* ---------- the whole run: open, then iterate to the end ---------- *)
+  Notation read_run := (read_run sem registry key_of key_lt).
+  Notation reader_iterate := (reader_iterate sem key_of key_lt).
+
+  Lemma reader_iterate_mk m p :
+    reader_iterate (mk_reader m p) =
+    match ip_next p with
+    | None => ([], [], EndStop, [])
+    | Some cur => iterate cur (ip_lineno p) (ip_pending p) (ip_scheme p) m
+                          (fst (h_sort_order (ip_recs p))) (snd (h_sort_order (ip_recs p))) None
+    end.
+  Proof.
+    unfold Reader.reader_iterate, mk_reader; simpl. destruct (ip_next p); [|reflexivity].
+    destruct (h_sort_order (ip_recs p)); reflexivity.
+  Qed.
+
+  Lemma no_ignored_app a b : no_ignored a -> no_ignored b -> no_ignored (a ++ b).
+  Proof. intros Ha Hb lg e H. apply in_app_or in H as [H|H]; [eapply Ha|eapply Hb]; eauto. Qed.
+  Lemma no_ignored_nil : no_ignored [].
+  Proof. intros lg e []. Qed.
+
+  Definition ok_same_reader (a b : res reader) : Prop :=
+    match a, b with Ok x, Ok y => same_reader x y | _, _ => False end.
+
+  Lemma read_run_modes lines override :
+    let rS := read_run lines (Some Silent) override in
+    let rL := read_run lines (Some Lenient) override in
+    let rT := read_run lines (Some Strict) override in
+    (* Silent *)
+    run_log rS = [] /\ end_not_format (run_end rS) /\
+    (exists rdS, run_init rS = Ok rdS /\
+       (* Lenient *)
+       ok_same_reader (run_init rS) (run_init rL) /\
+       Forall2 same_mrec (run_recs rS) (run_recs rL) /\ run_end rL = run_end rS /\
+       run_errs rL = run_errs rS /\ warns_all (run_log rL) (run_errs rS) /\
+       (* Strict *)
+       no_ignored (run_log rT) /\
+       match run_errs rS with
+       | [] => ok_same_reader (run_init rS) (run_init rT) /\
+               Forall2 same_mrec (run_recs rS) (run_recs rT) /\ run_end rT = run_end rS
+       | e0 :: _ =>
+           run_end rT = EndRaise (format_of e0) /\
+           match rd_errs rdS with
+           | [] => ok_same_reader (run_init rS) (run_init rT) /\
+                   Forall2 same_mrec (clean_prefix (@merrs C W) (run_recs rS)) (run_recs rT)
+           | _ :: _ => run_init rT = Raise (format_of e0) /\ run_recs rT = []
+           end
+       end).
+  Proof.
+    intros rS rL rT. subst rS rL rT. unfold Reader.read_run.
+    destruct (reader_init_modes lines override) as (HS & (lgL & HL & HwL) & HT).
+    set (p := plan_of lines override) in *.
+    rewrite HS, HL. rewrite !reader_iterate_mk.
+    (* the three traces *)
+    assert (Htr : forall m, exists t, (match ip_next p with
+              | None => ([], [], EndStop, [])
+              | Some cur => iterate cur (ip_lineno p) (ip_pending p) (ip_scheme p) m
+                              (fst (h_sort_order (ip_recs p))) (snd (h_sort_order (ip_recs p))) None
+              end) = t) by (intros; eexists; reflexivity).
+    destruct (ip_next p) as [cur|] eqn:EN.
+    - destruct (iterate_modes (ip_pending p) cur (ip_lineno p) (ip_scheme p)
+                  (fst (h_sort_order (ip_recs p))) (snd (h_sort_order (ip_recs p))) None None None I I)
+        as (I1 & I2 & (I3 & I4 & I5 & I6) & (I7 & I8 & I9)).
+      unfold tr_log, tr_recs, tr_end, tr_errs in *.
+      destruct (iterate cur (ip_lineno p) (ip_pending p) (ip_scheme p) Silent _ _ None) as [[[lgS rsS] eS] esS].
+      destruct (iterate cur (ip_lineno p) (ip_pending p) (ip_scheme p) Lenient _ _ None) as [[[lgL' rsL] eL] esL].
+      simpl in *. subst lgS eL esL.
+      split; [reflexivity|]. split; [exact I2|].
+      exists (mk_reader Silent p). split; [reflexivity|].
+      split; [apply same_reader_mk|]. split; [exact I3|]. split; [reflexivity|]. split; [reflexivity|].
+      split; [apply warns_all_app; assumption|].
+      destruct (ip_errs p) as [|e0 er] eqn:EE.
+      + destruct HT as (lgT & HT & HnT). rewrite HT. rewrite reader_iterate_mk, EN.
+        destruct (iterate cur (ip_lineno p) (ip_pending p) (ip_scheme p) Strict _ _ None) as [[[lgT' rsT] eT] esT].
+        simpl in *. subst lgT' esT.
+        split; [rewrite app_nil_r; exact HnT|].
+        destruct esS as [|e1 er1].
+        * destruct I9 as [I9 I10]. split; [apply same_reader_mk|]. split; assumption.
+        * destruct I9 as [I9 I10]. split; [exact I10|]. rewrite EE. split; [apply same_reader_mk|exact I9].
+      + destruct HT as (lgT & HT & HnT). rewrite HT. simpl.
+        split; [exact HnT|]. split; [reflexivity|]. rewrite EE. split; reflexivity.
+    - simpl. split; [reflexivity|]. split; [exact I|].
+      exists (mk_reader Silent p). split; [reflexivity|].
+      split; [apply same_reader_mk|]. split; [constructor|]. split; [reflexivity|]. split; [reflexivity|].
+      split; [rewrite !app_nil_r; exact HwL|].
+      rewrite app_nil_r.
+      destruct (ip_errs p) as [|e0 er] eqn:EE.
+      + destruct HT as (lgT & HT & HnT). rewrite HT. rewrite reader_iterate_mk, EN. simpl.
+        split; [rewrite app_nil_r; exact HnT|]. split; [apply same_reader_mk|]. split; [constructor|reflexivity].
+      + destruct HT as (lgT & HT & HnT). rewrite HT. simpl.
+        split; [exact HnT|]. split; [reflexivity|]. rewrite EE. split; reflexivity.
+  Qed.
+End ReaderModes.
+
+(* ---------- MafWriter ---------- *)
+Section WriterModes.
+  Context {C W : Type}.
+  Variable sem : colsem C W.
+  Notation cls := (cls C).
+  Notation scheme := (scheme cls).
+  Notation mrec := (mrec C W).
+  Variable registry : list scheme.
+  Notation writer := (writer C).
+
+  Definition same_writer (a b : writer) : Prop :=
+    w_header a = w_header b /\ w_scheme a = w_scheme b /\ w_out a = w_out b.
+
+  Definition mk_writer (h : header) (sch : option scheme) (m : mode) (_ : unit) (errs : list verr) : writer :=
+    let h' := {| hrecs := hrecs h; herrs := errs; hmode := hmode h |} in
+    {| w_header := h'; w_scheme := sch; w_mode := m;
+       w_out := (if nonempty (hrecs h) then [header_print (hrecs h)] else []) ++
+                match sch with
+                | Some s => if s_truthy s then [join [TAB] (s_names s)] else []
+                | None => []
+                end |}.
+
+  Lemma writer_init_unfold h m :
+    exists sch, h_scheme registry (hrecs h) = Ok sch /\
+    writer_init registry h (Some m) =
+    finish (Ok (tt, validate_errs registry (hrecs h) sch)) (mk_writer h sch) m LgWriter.
+  Proof.
+    destruct (h_scheme_ok registry (hrecs h)) as [sch E]. exists sch. split; [exact E|].
+    unfold writer_init, header_validate, finish. rewrite E. simpl.
+    destruct (process m LgWriter (validate_errs registry (hrecs h) sch)) as [lg [[]|e]]; simpl; [|reflexivity].
+    rewrite E. simpl. now rewrite !app_nil_r.
+  Qed.
+
+  Lemma writer_init_modes h :
+    stringency_contract LgWriter (fun w => herrs (w_header w)) same_writer
+      (writer_init registry h (Some Silent))
+      (writer_init registry h (Some Lenient))
+      (writer_init registry h (Some Strict)).
+  Proof.
+    destruct (writer_init_unfold h Silent) as [sch [E HS]].
+    destruct (writer_init_unfold h Lenient) as [sch1 [E1 HL]].
+    destruct (writer_init_unfold h Strict) as [sch2 [E2 HT]].
+    rewrite E in E1, E2. injection E1 as <-. injection E2 as <-.
+    rewrite HS, HL, HT. apply finish_contract; try reflexivity; auto.
+    intros; repeat split.
+  Qed.
+
+  (* one `writer += record` under the three stringencies *)
+  Lemma writer_iadd_modes (wS wL wT : writer) (r : mrec) :
+    same_writer wS wL -> same_writer wS wT ->
+    w_mode wS = Silent -> w_mode wL = Lenient -> w_mode wT = Strict ->
+    let aS := writer_iadd sem wS r in
+    let aL := writer_iadd sem wL r in
+    let aT := writer_iadd sem wT r in
+    fst (fst aS) = [] /\ not_format (snd aS) /\ snd aL = snd aS /\ same_writer (snd (fst aS)) (snd (fst aL)) /\
+    w_scheme (snd (fst aT)) = w_scheme (snd (fst aS)) /\
+    forall r', snd aS = Ok r' ->
+      fst (fst aL) = map (LIgnored LgWriter) (merrs r') /\ fst (fst aT) = [] /\
+      match merrs r' with
+      | [] => snd aT = Ok r' /\ same_writer (snd (fst aS)) (snd (fst aT))
+      | e0 :: _ => snd aT = Raise (format_of e0) /\
+                   exists line, w_out (snd (fst aS)) = w_out (snd (fst aT)) ++ [line]
+      end.
+  Proof.
+    intros (HhL & HsL & HoL) (HhT & HsT & HoT) MS ML MT aS aL aT. subst aS aL aT.
+    unfold writer_iadd. rewrite <- HhL, <- HsL, <- HoL, <- HhT, <- HsT, <- HoT, MS, ML, MT.
+    match goal with |- context [match ?X with (a, b) => _ end] => destruct X as [sch0 out1] end.
+    pose proof (record_validate_modes sem r LgWriter true (Some sch0)) as Hc.
+    unfold stringency_contract in Hc.
+    destruct (record_validate sem r (Some Silent) LgWriter true (Some sch0)) as [lgS [vS|eS]];
+      destruct (record_validate sem r (Some Lenient) LgWriter true (Some sch0)) as [lgL resL];
+      destruct (record_validate sem r (Some Strict) LgWriter true (Some sch0)) as [lgT resT];
+      simpl in Hc; destruct Hc as (-> & HnfS & _ & Hc).
+    - destruct Hc as ((vL & -> & <- & _) & -> & HcT).
+      destruct (record_text sem vS) as [t|e] eqn:ET; simpl.
+      + split; [reflexivity|]. split; [discriminate|]. split; [reflexivity|].
+        split; [repeat split|].
+        destruct (merrs vS) as [|e0 er] eqn:EM.
+        * destruct HcT as (-> & vT & -> & <- & _). rewrite ET. simpl. split; [reflexivity|].
+          intros r' Hr. injection Hr as <-. rewrite EM. repeat split.
+        * destruct HcT as (-> & ->). simpl. split; [reflexivity|].
+          intros r' Hr. injection Hr as <-. rewrite EM. repeat split. exists t. reflexivity.
+      + split; [reflexivity|]. split; [intros t l H; discriminate H || (injection H as H; revert H)|].
+        2:{ split; [reflexivity|]. split; [repeat split|].
+            destruct (merrs vS) as [|e0 er] eqn:EM.
+            - destruct HcT as (-> & vT & -> & <- & _). rewrite ET. simpl. split; [reflexivity|]. discriminate.
+            - destruct HcT as (-> & ->). simpl. split; [reflexivity|]. discriminate. }
+        (* record_text only raises PlainException *)
+        clear - ET. intros ->. unfold record_text in ET.
+        destruct (slots_text sem (rlist (mcols vS))) as [ts|e'] eqn:E1; [discriminate|].
+        simpl in ET. injection ET as ->.
+        revert E1. generalize (rlist (mcols vS)). intros sl. induction sl as [|[c|] sl IH]; simpl; [discriminate| |].
+        * destruct (col_text sem (pv (cval c))); [|discriminate].
+          destruct (slots_text sem sl); [discriminate|]. simpl. intros H. apply IH. exact H.
+        * destruct (slots_text sem sl); [discriminate|]. simpl. intros H. apply IH. exact H.
+    - destruct Hc as (-> & -> & -> & ->). simpl.
+      split; [reflexivity|]. split; [exact HnfS|]. split; [reflexivity|]. split; [repeat split|].
+      split; [reflexivity|]. discriminate.
+  Qed.
+End WriterModes.
